@@ -161,6 +161,14 @@ def run_property(P, tier, seed, replay=None):
         for ob in obligations:
             if ob["status"] != "discharged" and pc["ok"]:
                 broken.append("theorem:%s (%s)" % (ob["name"], ob["status"]))
+    coqchk = None
+    if tier == "thorough" and obligations and not broken:
+        # independent re-check of the compiled proofs and everything they depend on
+        rc, out = vlib.sh(["coqchk", "-silent", "-o", "-Q", os.path.join(vlib.COQ, "theories"), "JP", "JP.Props.%s" % P.id], timeout=1800)
+        m = re.search(r"\* Axioms:\s*(.*?)\n\s*\n", out, re.S)
+        coqchk = {"exit": rc, "axioms": (m.group(1).strip() if m else "?")}
+        if rc != 0 or coqchk["axioms"] != "<none>":
+            broken.append("coqchk: exit %s axioms %s" % (rc, coqchk["axioms"][:200]))
     hits = vlib.forbidden_scan()
     if hits:
         broken.append("forbidden-declarations:" + ";".join(hits[:5]))
@@ -312,7 +320,7 @@ def run_property(P, tier, seed, replay=None):
         "theorems": [{"name": o["name"], "status": o["status"], "axioms": o["axioms"]} for o in obligations],
         "evaluations": len(lines) * len(bins), "distinct_nontrivial": len(nontrivial),
         "rule": P.rule, "samples": samples, "case_kinds": kinds, "model_observation_kinds": obs_kinds,
-        "judgements": stats, "spec_oracle_lines": len(sidx), "builds": [b for b, _ in bins], "coq_cross_checked_lines": len(xs),
+        "judgements": stats, "spec_oracle_lines": len(sidx), "coqchk": coqchk, "builds": [b for b, _ in bins], "coq_cross_checked_lines": len(xs),
         "traces_validated_against_impl": len(lines), "disagreements_checked": len(viol_cases),
         "known_findings_reproduced": sorted(known_hit), "broken_obligations": broken, "notes": notes[-5:],
     }
